@@ -1,11 +1,42 @@
 (* C11 - allOf is conjunction and anyOf is disjunction for object schemas.
    Statements only; every proof is `exact <lemma>`; Print Assumptions under each.
-   Proved: the anyOf validator (validator.go:416-441) accepts iff at least one branch type accepts,
-   for every list of branch types and every document.  The allOf half depends on the merge of the
-   branch schemas (mergo, schemas/model.go:269-327), which is not modelled: gen returns GUnmod for
-   allOf/anyOf schemas and C11 is decided there on the implementation against the reference semantics
-   (Spec/Valid.v: forallb / existsb over the branches) by the correspondence run.  Partial. *)
-From GJS Require Import Base Schema GoType Exec Valid ExecP.
+   allOf: the generator resolves the branches, merges them (mergo; Model/Merge.v transcribes it on the modelled
+   keywords) and generates the merged schema inline (C11_allOf_generated).  For object branches with pairwise
+   disjoint property sets the merged schema is, under the reference semantics, exactly the conjunction of the
+   branches on every document, and its properties are the union of theirs (C11_allOf_merge).  Branch lists that
+   share a property are deep-merged through shared pointers by mergo: outside the model (merge2 = None, gen =
+   GUnmod), decided on the implementation against the reference semantics.  All-primitive branch lists are not
+   merged at all: refuted lemma below (outside "object schemas").
+   anyOf: the validator (validator.go:416-441) accepts iff at least one branch type accepts, for every list of
+   branch types and every document; the merge of anyOf branches into the carrier struct is not modelled (gen = GUnmod). *)
+From GJS Require Import Base Schema Merge GoType Gen Exec Valid ExecP GenP MergeP.
+
+Theorem C11_allOf_merge : forall fmt_ok defs bs m f j,
+  forallb plain bs = true -> forallb obj_typed bs = true ->
+  merge_types bs = Some m ->
+  valid fmt_ok defs (S f) m j = forallb (fun b => valid fmt_ok defs (S f) b j) bs /\ s_props m = flat_map s_props bs.
+Proof. exact merge_is_conjunction. Qed.
+Print Assumptions C11_allOf_merge.
+
+Theorem C11_allOf_generated : forall idf cf defs f self sub c props addl af items b bs scope m,
+  c_enum c = None -> c_ref c = None -> all_of_schema defs (b :: bs) = Done m ->
+  gen idf cf defs (S f) MInline self sub (Sch c props addl af items (b :: bs) []) scope = gen idf cf defs f MInline self false m scope.
+Proof. exact allof_generated. Qed.
+Print Assumptions C11_allOf_generated.
+
+Theorem C11_allOf_inhabited :
+  exists m, merge_types [ob [97]%N SString; ob [98]%N SInteger] = Some m /\
+    forallb plain [ob [97]%N SString; ob [98]%N SInteger] = true /\ forallb obj_typed [ob [97]%N SString; ob [98]%N SInteger] = true /\
+    map fst (s_props m) = [[97]%N; [98]%N].
+Proof. exact merge_inhabited. Qed.
+Print Assumptions C11_allOf_inhabited.
+
+Theorem C11_refuted_primitive_branches :
+  exists m, merge_types [prim_branch] = Some m /\
+    valid (fun _ _ => true) [] 3 m (JStr [97; 98; 99]%N) = true /\
+    forallb (fun b => valid (fun _ _ => true) [] 3 b (JStr [97; 98; 99]%N)) [prim_branch] = false.
+Proof. exact merge_primitive_refuted. Qed.
+Print Assumptions C11_refuted_primitive_branches.
 
 Theorem C11_anyOf_validator : forall decf raw j branches,
   (forall bt, In bt branches -> decf bt j <> Crash /\ decf bt j <> NoFuel) ->
@@ -19,9 +50,5 @@ Theorem C11_spec : forall fmt_ok defs f c props addl af items allof anyof j,
   valid fmt_ok defs (S f) (Sch c props addl af items allof anyof) j = true ->
   forallb (fun b => valid fmt_ok defs f b j) allof = true /\
   (anyof = [] \/ existsb (fun b => valid fmt_ok defs f b j) anyof = true).
-Proof.
-  intros fmt_ok defs f c props addl af items allof anyof j Hr H. cbn [valid s_con s_all_of s_any_of] in H. rewrite Hr in H.
-  repeat (apply andb_true_iff in H; destruct H as [H ?]).
-  split; [assumption|]. destruct anyof; [left; reflexivity|right; assumption].
-Qed.
+Proof. exact spec_composites. Qed.
 Print Assumptions C11_spec.
